@@ -362,6 +362,12 @@ class Impl(object):
         if op == "delete":
             t.delete_webentity(int(w[1]), unx_arg_list(w[2]))
             return "ok"
+        if op == "deleteu":
+            self.du_calls = getattr(self, "du_calls", 0) + 1
+            t.delete_webentity([None, 0, 7][self.du_calls % 3], unx_arg_list(w[1]), check_for_corruption=False)
+            return "ok"
+        if op == "addruleram":
+            return render_report(t.add_webentity_creation_rule(unx_arg(w[1]), RULES[w[2]], write_in_trie=False))
         if op == "addprefix":
             t.add_prefix_to_webentity(unx_arg(w[1]), int(w[2]))
             return "ok"
